@@ -7,12 +7,13 @@ against that.  R6's width rule itself (fixed width <=> structural wmin == wmax) 
 from .. import vcrun
 from ..common import native, SEED
 from . import _groups as GR
+from ._groups import EXC
 
 LEVEL = "proof"
 
 
 def run(rep, tier):
-    vcrun.run_functions(rep, GR.G4L + GR.W_LOOK + GR.HELPERS, tier)
+    vcrun.run_functions(rep, GR.G4L + GR.W_LOOK + GR.HELPERS + EXC, tier)
     n = 3000 if tier == "quick" else 60000
     r = native("run_module", {"module": "pvc.bex_width", "func": "run", "args": {"n": n, "seed": SEED}}, timeout=3600)
     rep.bounded.append({"id": "B6", "function": "re's fixed-width rule (axiom R6) vs structural width of DSL expressions",
